@@ -403,6 +403,9 @@ def rule_mask_names(check, model, rules):
                 if k == 'in' and atom[1] == el:
                     c = atom[2]
                     role = _container_role(model, c, carried)
+                    if role == 'in_reserved':
+                        g['in_input_parameters'] = pol
+                        continue
                     if role is None and c == ('A', model.role_term('sig'), 'parameters'):
                         # "is it a parameter name of the input at all": true of live names, of consumed ones, of
                         # positional-only ones and of the star parameters' own names -- a fact about the input which the
@@ -437,6 +440,13 @@ def rule_mask_names(check, model, rules):
                         g[('has', proto.kind_at(idx))] = pol
                     elif b is not None:
                         g[('has', proto.kind_at(b[1]))] = pol
+                    elif t[0] == 'M' and t[1] == el and t[2] == 'isidentifier':
+                        # a name that cannot be the name of a parameter is absorbed without a parameter to display it
+                        if not pol:
+                            g['in_input_parameters'] = True
+                    elif t[0] == 'C' and isinstance(t[1], str) and t[1].endswith('iskeyword') and t[2] and t[2][0] == el:
+                        if pol:
+                            g['in_input_parameters'] = True
                     elif t[0] == 'C' and t[1] == 'any' and mentions(t, el):
                         # "does a parameter that is left have this name" (D38/D58): a fact about the input, like `in sig.parameters`
                         g['in_input_parameters'] = pol
@@ -695,6 +705,11 @@ def _container_role(model, c, carried):
         return None
     if c[0] == 'SET':
         init = model.interp.obj_init.get(c)
+        if init is not None and not model.is_empty_fresh(c) and any(
+                isinstance(s_, tuple) and s_ and s_[0] == 'C' and isinstance(s_[1], str) and s_[1].endswith(':_pnames') for s_ in subterms(init)):
+            # set(_pnames(<what is left of the positional-only bucket>)), later joined by the star names: the names a keyword absorbed
+            # by **kwargs cannot be displayed under -- a fact about the input like `in sig.parameters`
+            return 'in_reserved'
         if init is not None and not model.is_empty_fresh(c):
             # set(p.name for p in <PO bucket>): the names of the positional-only parameters of the input (D58)
             iPO = proto.index_of_kind('PO')
